@@ -138,6 +138,15 @@ def to_index(ixs):
     return tuple(i if isinstance(i, int) else slice(i[0], i[1], i[2]) for i in ixs)
 
 
+def spell_index(ixs, k):
+    """the index expression as a user would write it: a one-component index is written bare (da[0], da[1:3]) on
+    every other step and as a 1-tuple otherwise (NumPy gives both the same meaning; nixio's code paths differ)"""
+    t = to_index(ixs)
+    if len(t) == 1 and k % 2 == 0:
+        return t[0]
+    return t
+
+
 def err_name(e):
     for cls, nm in ((IndexError, "IndexError"), (OverflowError, "OverflowError"), (ValueError, "ValueError"),
                     (TypeError, "TypeError"), (KeyError, "KeyError"), (RuntimeError, "RuntimeError"),
@@ -235,13 +244,13 @@ class Session:
         return out
 
 
-def apply_step(sess, st):
+def apply_step(sess, st, k=1):
     """returns 'ok' or the error class name; for read steps returns an observation dict"""
     da = sess.da
     op = st[0]
     if op == "read":
         try:
-            x = da[to_index(st[1])]
+            x = da[spell_index(st[1], k)]
             dtn = dtype_name(da)
             return {"r": "ok", "shape": [int(v) for v in x.shape], "flat": np_flat(x, dtn)}
         except Exception as e:
@@ -250,7 +259,7 @@ def apply_step(sess, st):
         if op == "write":
             da.write_direct(arr_to_np(st[1]))
         elif op == "assign":
-            da[to_index(st[1])] = arr_to_np(st[2])
+            da[spell_index(st[1], k)] = arr_to_np(st[2])
         elif op == "append":
             da.append(arr_to_np(st[1]), axis=st[2])
         elif op == "resize":
@@ -275,8 +284,8 @@ def run_impl(case, path):
         except Exception as e:
             return {"ok": {"create": err_name(e)}}
         out = {"create": "ok", "first": sess.observe("ok"), "steps": []}
-        for st in case["steps"]:
-            r = apply_step(sess, st)
+        for k, st in enumerate(case["steps"]):
+            r = apply_step(sess, st, k)
             if isinstance(r, dict):
                 out["steps"].append(r)
             else:
@@ -518,7 +527,7 @@ def oracle_case(case, path):
             return f, n
         for k, st in enumerate(case["steps"], 1):
             if st[0] == "read":
-                r = apply_step(sess, st)
+                r = apply_step(sess, st, k)
                 try:
                     want = mirror[to_index(st[1])]
                 except Exception:
@@ -537,7 +546,7 @@ def oracle_case(case, path):
                                        {"shape": wshape, "flat": np_flat(want, dtn)[:64]}, "DataSet.__getitem__"), n
                 continue
             exp, new = mirror_step(mirror, dtn, st)
-            r = apply_step(sess, st)
+            r = apply_step(sess, st, k)
             if exp == "any":
                 if r != "ok":
                     f = check("after refused step %d %s" % (k, st[0]), k)
